@@ -66,6 +66,16 @@ func genC12Case(t *rapid.T) C12Case {
 	issuer := rapid.SampledFrom([]string{e0, e0, e0, e0, e1, e1, e0, e1, "https://unregistered.example/metadata", A, swapCase(e0), e0 + "/"}).Draw(t, "issuer")
 	subject := rapid.SampledFrom([]string{u0.LoginName, u0.LoginName, u1.LoginName, u0.LoginName, u1.LoginName, u1.LoginName, "nobody@users.example", A, " " + u0.LoginName}).Draw(t, "subject")
 	q := spsim.NewAttrQuery(genNonEmptyLegal(t, "qid", 3), issuer, subject)
+	if rapid.IntRange(0, 2).Draw(t, "subject-qualified") == 0 {
+		// the subject's name may be qualified: by the requester itself, by another registered provider (an affiliation), by anybody
+		own := issuer
+		if own == A {
+			own = ""
+		}
+		q.SubjSPNameQualifier = rapid.SampledFrom([]string{"", own, spec.SPs[1].EntityID, spec.SPs[0].EntityID, "https://unregistered-audience.example/metadata"}).Draw(t, "subject-spnq")
+		q.SubjNameQualifier = rapid.SampledFrom([]string{"", "https://idp.example", "https://unregistered-audience.example/metadata"}).Draw(t, "subject-nq")
+		q.SubjFormat = rapid.SampledFrom([]string{"", "urn:oasis:names:tc:SAML:1.1:nameid-format:unspecified", "urn:oasis:names:tc:SAML:2.0:nameid-format:persistent"}).Draw(t, "subject-format")
+	}
 	q.IssueInstant = spsim.Rel(-5, 0, "")
 	// requested attributes: drawn from the user's own attributes (matching), near misses and foreign names
 	target := u0
